@@ -5,7 +5,7 @@
     CC = the separator / fallback literals of cmdline.c (vlib/translate.py).
     [eval_ds G CC name st arg sz]  the outcome the generated description gives in process state [st];
     [documented ... name]          the hand-written table taken from etc/snoopy.ini.in and the source headers. *)
-From Coq Require Import String ZArith NArith List.
+From Coq Require Import String ZArith NArith List Lia.
 From Snoopy Require Import Lib.CStr Datasource.Cmdline DsTruth.Model DsTruth.Proofs.
 From Gen Require Import Gen_Ds Gen_Cmdline.
 Import ListNotations.
@@ -62,10 +62,10 @@ Definition st_example : pstate :=
 
 Example C12_nonvacuous_wf : wf_pstate st_example.
 Proof.
-  constructor; try (vm_compute; intuition congruence).
-  - intros p u. cbn. destruct (list_eqb p (lit "/dev/pts/3")); [|discriminate]. intros E. injection E as <-. vm_compute. intuition congruence.
-  - intros fd. cbn. destruct (fd =? 0); discriminate.
-  - intros env e E I. cbn in E. injection E as <-. cbn in I. repeat (destruct I as [<-|I]; [vm_compute; reflexivity|]). contradiction.
+  constructor; unfold is_id, is_pid, two31, two32, two63, two64; cbn -[Z.lt Z.le list_eqb Z.eqb]; try lia.
+  - intros p u. match goal with |- context[list_eqb ?a ?b] => destruct (list_eqb a b) end; [|discriminate]. intros E. injection E as E. subst u. lia.
+  - intros fd. destruct (fd =? 0); discriminate.
+  - intros env e E I. injection E as <-. cbn in I. repeat (destruct I as [<-|I]; [vm_compute; reflexivity|]). contradiction.
 Qed.
 Example C12_nonvacuous_values :
   map (fun n => option_map (fun o => (o_ret o, option_map string_of_list_byte (o_buf o))) (eval_ds G CC n st_example (lit "A") 64))
